@@ -168,7 +168,8 @@ Representable(f, mode, D) ==
     /\ (\E i \in DOMAIN f.vprops : Canon(f.vprops[i].t) = "uchar") => D % 255 = 0
     /\ \A i \in DOMAIN f.vprops :
           (~IsFloatT(Canon(f.vprops[i].t)) /\ Canon(f.vprops[i].t) # "uchar") =>
-              \A r \in DOMAIN f.vrecs : f.vrecs[r][i] <= MaxInt32 \div D /\ f.vrecs[r][i] >= 0 - (MaxInt32 \div D)
+              \A r \in DOMAIN f.vrecs : /\ f.vrecs[r][i] <= MaxInt32 \div D
+                                        /\ f.vrecs[r][i] >= 0 - (MaxInt32 \div D) - (IF D = 1 THEN 1 ELSE 0)
 
 \* raw = TRUE is the VARIANT in which single 8-bit scalars keep their raw value 0..255 (what the
 \* library's ASCII reader does, pinned by its tests; used only to classify that known deviation)
